@@ -32,7 +32,9 @@ package expire
 //@   ensures stamps_now: result.0 == false && result.1 == nil && emits Sess.Put("last_action", ?v) :: before Now() -> ?n :: v == time_format(n, "2006-01-02T15:04:05Z07:00")
 //@
 //@ func (expireMiddleware).ServeHTTP
-//@   property C09 C01 C02 C12 C13 C14
+//@   property C09 C01 C02 C10 C12 C13 C14
+//@   -- (C10: the middleware never answers a request itself - a logout that arrives on an expired
+//@   -- session still reaches the logout handler, which removes the remember cookie)
 //@   requires m.expireAfter >= 0
 //@   invariant loop#1 whitelist_subset: forall k string :: maphas(whitelist, k) ==> (exists j int :: 0 <= j && j < len(m.sessionWhitelist) && elem(m.sessionWhitelist, j) == k)
 //@   -- an expired session: delete all but the whitelist plus the identity keys, and hide
